@@ -4,6 +4,7 @@ package main
 
 import (
 	"fmt"
+	"strings"
 	"go/token"
 	"go/types"
 
@@ -206,8 +207,28 @@ func (f *frame) invEnv(li *loopInfo, st *State, phiTerm func(p *ssa.Phi) string)
 	return env
 }
 
-func (f *frame) autoInvariants(li *loopInfo, phiTerm func(p *ssa.Phi) string) []string {
+func (f *frame) autoInvariants(li *loopInfo, st *State, phiTerm func(p *ssa.Phi) string) []string {
 	var out []string
+	// heap arrays that the loop writes only inside objects allocated by this activation keep the content of
+	// every object that existed at function entry
+	if eff := f.loopEff[li]; eff != nil && !eff.all {
+		t := f.t
+		for _, name := range sortedKeys(eff.arrs) {
+			if eff.dirty[name] || strings.HasPrefix(name, "L:") {
+				continue
+			}
+			sortA := t.descSort(eff.arrs[name])
+			if !strings.HasPrefix(sortA, "(Array Int ") {
+				continue
+			}
+			cur, old := t.get(st, name, sortA), t.get(f.entry, name, sortA)
+			if cur == old {
+				continue
+			}
+			qv := q(t.B.fresh("?p"))
+			out = append(out, fmt.Sprintf("(forall ((%s Int)) (! (=> (and (<= 0 %s) (<= %s %s)) (= (select %s %s) (select %s %s))) :pattern ((select %s %s))))", qv, qv, qv, f.entry.alloc, cur, qv, old, qv, cur, qv))
+		}
+	}
 	if phi, _, lenV := f.rangeIndexInfo(li); phi != nil && lenV != nil {
 		i := phiTerm(phi)
 		n := f.termOf(lenV)
@@ -221,6 +242,10 @@ func (f *frame) enterLoop(li *loopInfo, es []edge) (string, *State, error) {
 	b := li.header
 	idx := predIndexes(b, es)
 	cls := f.loopClauses(li)
+	if f.loopEff == nil {
+		f.loopEff = map[*loopInfo]*effects{}
+	}
+	f.loopEff[li] = f.loopEffects(li)
 	// 1. init obligations per entry edge
 	for i, e := range es {
 		i := i
@@ -236,7 +261,7 @@ func (f *frame) enterLoop(li *loopInfo, es []edge) (string, *State, error) {
 			ks := t.B.sortOf(mt.Key())
 			stE.visited[r] = fmt.Sprintf("((as const (Array %s Bool)) false)", ks)
 		}
-		for _, a := range f.autoInvariants(li, phiIn) {
+		for _, a := range f.autoInvariants(li, stE, phiIn) {
 			f.addObl("inv-init", fmt.Sprintf("loop%d.auto", li.ordinal), e.cond, a, nil, b.Instrs[0].Pos(), nil)
 		}
 		for _, c := range cls {
@@ -250,21 +275,22 @@ func (f *frame) enterLoop(li *loopInfo, es []edge) (string, *State, error) {
 	}
 	// 2. havoc
 	cond, st := f.mergeEdges(es)
-	eff := f.loopEffects(li)
+	eff := f.loopEff[li]
 	preAlloc := st.alloc
 	if eff.all {
 		cond = t.havocAll(st, cond, !eff.trace)
 	} else {
+		if eff.alloc {
+			st.alloc = t.B.declConst(t.B.fresh("alloc@loop"), "Int")
+			cond = and(cond, fmt.Sprintf("(>= %s %s)", st.alloc, preAlloc))
+		}
 		for _, name := range sortedKeys(eff.arrs) {
 			sortA := t.descSort(eff.arrs[name])
 			if _, ok := t.arrSort[name]; !ok {
 				t.arrSort[name] = sortA
 			}
 			st.heap[name] = t.B.declConst(t.B.fresh(name+"@loop"), sortA)
-		}
-		if eff.alloc {
-			st.alloc = t.B.declConst(t.B.fresh("alloc@loop"), "Int")
-			cond = and(cond, fmt.Sprintf("(>= %s %s)", st.alloc, preAlloc))
+			t.noteVersion(st.heap[name], st.alloc)
 		}
 		if eff.trace {
 			oldN, oldT := st.ntrace, st.trace
@@ -291,7 +317,7 @@ func (f *frame) enterLoop(li *loopInfo, es []edge) (string, *State, error) {
 	}
 	phiHdr := func(p *ssa.Phi) string { return f.vals[p].term }
 	cur := and(cond, and(facts...))
-	for _, a := range f.autoInvariants(li, phiHdr) {
+	for _, a := range f.autoInvariants(li, st, phiHdr) {
 		cur = and(cur, a)
 	}
 	for _, c := range cls {
@@ -310,7 +336,7 @@ func (f *frame) backEdge(li *loopInfo, from *ssa.BasicBlock, cond string, st *St
 	phiIn := func(p *ssa.Phi) string {
 		return f.termOf(p.Edges[predIdx])
 	}
-	for _, a := range f.autoInvariants(li, phiIn) {
+	for _, a := range f.autoInvariants(li, st, phiIn) {
 		f.addObl("inv-pres", fmt.Sprintf("loop%d.auto", li.ordinal), cond, a, nil, li.header.Instrs[0].Pos(), nil)
 	}
 	for _, c := range f.loopClauses(li) {
